@@ -1,5 +1,5 @@
 CONSTANTS
-  NValues = 12
+  NValues = 13
 INIT Init
 NEXT Next
 CONSTRAINT DumpCase
